@@ -170,6 +170,10 @@ func (t *tlc) StrutLayoutsCache() map[text.StrutLayoutKey][2]pr.Float    { retur
 
 // ---- executing ops
 
+// entryOpBudget: steps one direct parser call may take (the largest corpus text, a whole
+// stylesheet through tree.NewCSSDefault, takes about a million).
+const entryOpBudget = 50000000
+
 type runner struct {
 	spec *Spec
 	sm   *seams
@@ -187,6 +191,11 @@ func (rn *runner) exec(op Op) {
 		return
 	}
 	start := simrt.Steps()
+	if op.Op == "entry" {
+		// entry ops are small and independent: each gets its own step budget, so that a
+		// parser that never ends is stopped (and attributed) within its own op
+		simrt.SetBudget(start + entryOpBudget)
+	}
 	func() {
 		defer func() {
 			if r := recover(); r != nil {
@@ -283,7 +292,7 @@ func (rn *runner) do(op Op, res *OpResult) {
 			input = utils.InputString(string(sc.main))
 			base = mainURL
 		case "reader":
-			rd := &simReader{data: sc.main, failAt: -1, chunked: op.Chunk != 0, rng: simrt.SplitMix(op.Chunk)}
+			rd := &simReader{data: sc.main, failAt: -1, chunked: op.Chunk != 0, rng: simrt.SplitMix(op.Chunk), eofData: op.Chunk&2 != 0}
 			for _, f := range rn.sm.faults {
 				if f.At != "main" || (f.Op != "" && f.Op != op.ID) {
 					continue
